@@ -932,6 +932,22 @@ fn gen_ext_task(rng: &mut Rng, origin: String) -> ExtTask {
     // generator of their own (seeded by the origin), so the stream behind every other choice is unchanged.
     let mut spec = spec;
     let mut ug = ug;
+    let mut program = program;
+    {
+        // one task in eight: the variable X of the program is called V1 or V2 - the names tau* gives its head variables,
+        // which shifts their indices (completion must still find every rule of a predicate)
+        let mut h: u64 = 0x51ed27a9b1c3d5e7;
+        for b in origin.bytes() { h = (h ^ b as u64).wrapping_mul(0x100000001b3); }
+        let mut vr = Rng::new(h);
+        if vr.chance(1, 8) {
+            let v = *vr.pick(&["V1", "V2", "V3"]);
+            let text: String = format!("{program}").split_inclusive(|c: char| !c.is_ascii_alphanumeric()).map(|tok| {
+                let (w, rest) = tok.split_at(tok.trim_end_matches(|c: char| !c.is_ascii_alphanumeric()).len());
+                if w == "X" { format!("{v}{rest}") } else { tok.to_string() }
+            }).collect();
+            if let Ok(p) = text.parse::<asp::Program>() { program = p; }
+        }
+    }
     if !sloppy {
         let mut h: u64 = 0xcbf29ce484222325;
         for b in origin.bytes() { h = (h ^ b as u64).wrapping_mul(0x100000001b3); }
@@ -1374,6 +1390,19 @@ fn print(seed: u64, n: usize, corpus: Option<&Path>) -> Vec<Case> {
         let po = t.po.clone();
         let imp = guarded(move || sexp::q(&po.to_string()));
         cases.push(Case { req: format!("(print_spec {})", spec_sexp(&t.po)), nontrivial: true, imp, tag: "print_spec", origin: t.origin.clone() });
+    }
+    // facts over deep terms (depth up to 5: three and more operators along one spine, chains of unary minus), which the
+    // program generator (depth <= 2) never builds; a generator of their own, after all other cases
+    let mut drng = Rng::new(seed ^ 0xDEE9_7E47);
+    for i in 0..(n / 8).max(40) {
+        let mut g = Gen::new(drng.fork());
+        g.nvars = 4;
+        let depth = 3 + g.rng.below(3);
+        let t = g.aterm(depth);
+        let p = asp::Program { rules: vec![asp::Rule { head: asp::Head::Basic(asp::Atom { predicate_symbol: "p".into(), terms: vec![t] }), body: asp::Body { formulas: vec![] } }] };
+        let input = sexp::program(&p);
+        let imp = guarded(move || sexp::q(&p.to_string()));
+        cases.push(Case { req: format!("(print_program {input})"), nontrivial: true, imp, tag: "print_program", origin: format!("deep:{seed}:{i}") });
     }
     cases
 }
